@@ -157,8 +157,12 @@ def gen_scalar(rng, name):
     if name == "timedelta":
         v = rng.choice([dt.timedelta(0), dt.timedelta(days=1), dt.timedelta(seconds=-1), dt.timedelta(microseconds=1), dt.timedelta(microseconds=-1),
                         dt.timedelta(days=400, seconds=3, microseconds=5), dt.timedelta(seconds=0.5), dt.timedelta(days=-2, seconds=30, microseconds=250000),
-                        dt.timedelta(seconds=rng.randint(-10 ** 7, 10 ** 7), microseconds=rng.choice([0, 0, 7, 500000, 999999]))])
-        return v, "timedelta:" + ("neg" if v < dt.timedelta(0) else "pos") + (":us" if v.microseconds else "")
+                        dt.timedelta(seconds=rng.randint(-10 ** 7, 10 ** 7), microseconds=rng.choice([0, 0, 7, 500000, 999999])),
+                        # the whole representable range: long durations keep their microseconds
+                        dt.timedelta(days=rng.choice([100000, 999999, 36500000, 999999999, -999999999, -100000]), seconds=rng.randint(0, 86399),
+                                     microseconds=rng.choice([0, 1, 2, 999999, 500001])),
+                        rng.choice([dt.timedelta.max, dt.timedelta.min, dt.timedelta(days=99421, microseconds=1)])])
+        return v, "timedelta:" + ("neg" if v < dt.timedelta(0) else "pos") + (":us" if v.microseconds else "") + (":long" if abs(v.days) > 99000 else "")
     if name == "UUID":
         return uuid.UUID(int=rng.getrandbits(128)), "UUID"
     if name == "Color":
